@@ -15,10 +15,14 @@ FLOAT_DTYPES = {
     # name: (ebits, sbits incl. hidden)
     "float16": (5, 11), "bfloat16": (8, 8), "float32": (8, 24), "float64": (11, 53),
     "float8_e5m2": (5, 3), "float8_e4m3fn": (4, 4),
+    # the fnuz flavours are known by name and range only (torch.finfo); casts from / to them are outside the model
+    "float8_e4m3fnuz": (4, 4), "float8_e5m2fnuz": (5, 3),
 }
+FNUZ = ("float8_e4m3fnuz", "float8_e5m2fnuz")
 FLOAT_MAX = {
     "float16": 65504.0, "bfloat16": 3.3895313892515355e38, "float32": 3.4028234663852886e38,
     "float8_e5m2": 57344.0, "float8_e4m3fn": 448.0, "float64": 1.7976931348623157e308,
+    "float8_e4m3fnuz": 240.0, "float8_e5m2fnuz": 57344.0,
 }
 
 
@@ -210,6 +214,8 @@ class Algebra:
         """Scalar meaning of tensor.to(dst) for an element of dtype src."""
         if src == dst:
             return x
+        if src in FNUZ or dst in FNUZ:
+            raise Unsupported(f"cast {src} -> {dst}: the fnuz float8 flavours are modelled by name and range only")
         if dst == "bool":
             raise Unsupported("cast to bool")
         if src == "bool":
